@@ -761,7 +761,9 @@ theorem compat_sound : ∀ (a b : DType F), a.WF → b.WF → GridAligned a → 
                   rw [hkeq] at this
                   exact this
             refine ⟨.dict res, ?_⟩
-            simp only [validate, conv, Bool.or_true, beq_self_eq_true, hsc, if_true, prevFields, hres', mapErr]
+            have hsf : structFold (convMember .validate ms') fields (PVal.notOffered fields []) = .ok res := by
+              simp only [structFold, PVal.notOffered, List.filter_nil, foldFields, hres']
+            simp only [validate, conv, Bool.or_true, beq_self_eq_true, hsc, if_true, prevFields, hsf, mapErr]
             rfl
           · cases h
       | _ => simp only [compatible] at h <;> cases h
